@@ -83,6 +83,13 @@ def d_rounds(g, tier):
     return ops
 
 
+def d_longchain(g, tier):
+    ops = []
+    for i in range(1 if tier == "quick" else 4):
+        ops += gen.long_chain_session(g)
+    return ops
+
+
 def d_protocols(g, tier):
     return gen.protocols_session(g)
 
@@ -137,7 +144,7 @@ def vector_ops(name, tier, seed):
 
 
 DRIVERS = {"corpus": d_corpus, "conformant": d_conformant, "mutate": d_mutate, "truncate": d_truncate,
-           "hostile": d_hostile, "protocols": d_protocols, "rounds": d_rounds, "known": d_known, "scale": d_scale, "struct": d_struct}
+           "hostile": d_hostile, "protocols": d_protocols, "rounds": d_rounds, "known": d_known, "scale": d_scale, "struct": d_struct, "longchain": d_longchain}
 
 LIGHT_DRIVERS = {"scale"}      # adversarial 64 KiB inputs: totality, accounting and cost only (Trace.tla, LIGHT=1)
 
@@ -145,7 +152,7 @@ PROP_DRIVERS = {
     "C01": ["corpus", "hostile", "mutate", "conformant", "scale"],
     "C15": ["corpus", "conformant", "hostile", "scale"],
     "C16": ["corpus", "conformant", "mutate", "rounds", "hostile"],
-    "C02": ["corpus", "conformant", "mutate", "truncate", "hostile"],
+    "C02": ["corpus", "conformant", "mutate", "truncate", "hostile", "longchain"],
     "C03": ["corpus", "conformant", "protocols", "truncate"],
     "C04": ["corpus", "conformant", "protocols"],
     "C05": ["corpus", "conformant"],
@@ -154,7 +161,7 @@ PROP_DRIVERS = {
     "C08": ["corpus", "conformant", "mutate", "struct", "protocols"],
     "C09": ["corpus", "conformant", "mutate", "hostile"],
     "C10": ["corpus", "conformant", "mutate", "hostile"],
-    "C11": ["corpus", "conformant", "rounds"],
+    "C11": ["corpus", "conformant", "rounds", "longchain"],
     "C12": ["corpus", "mutate", "conformant", "rounds"],
     "C13": ["corpus", "conformant", "mutate", "protocols"],
     "C14": ["corpus", "truncate", "mutate", "rounds"],
